@@ -184,7 +184,9 @@ class LinearReconstructEveryK(TimeStepFilter):
                 rolled,
                 time_indices,
             )
-            time_indices = time_indices.at[: self.k].set(0)
+            # undo the wrap-around of jnp.roll (only index 0 can receive the last step's index; zeroing the
+            # first k entries would also erase the last step's own slot when k >= time_steps_max)
+            time_indices = time_indices.at[0].set(0)
         self = self.aset("_time_to_arr_idx", time_indices, create_new_ok=True)
         return self, self._array_size, input_shape_dtypes, {}
 
